@@ -509,15 +509,17 @@ theorem judgeB_iff (g : SG) (k : Nat) (hb : g.Bounded k) (hw : g.WF) (op : Op) (
       · rename_i hlt; simp [hlt, h]
   | edgeToIndex a b =>
     simp only [judgeB, OutOk]
-    cases o <;> simp
-    rename_i i
-    intro _
-    constructor
-    · intro h2
-      refine ⟨_, allEdgesOk_spec g k hb hw, ?_⟩
-      simpa [specEdges] using h2
-    · rintro ⟨l, hl, h2⟩
-      rw [← allEdgesOk_length g k hb hw l hl]; exact h2
+    cases g.hasEdge a b
+    · simp
+    · simp only [if_true]
+      cases o <;> simp
+      · rename_i i
+        constructor
+        · intro h2
+          refine ⟨_, allEdgesOk_spec g k hb hw, ?_⟩
+          simpa [specEdges] using h2
+        · rintro ⟨l, hl, h2⟩
+          rw [← allEdgesOk_length g k hb hw l hl]; exact h2
   | edgeFromIndex i =>
     simp only [judgeB, OutOk]
     constructor
